@@ -1103,7 +1103,8 @@ impl Rasn {
         let name_ident = self.to_rust_title_case(name);
         let field_inits = members.iter().map(|m| {
             let field_name = self.to_rust_snake_case(&m.name);
-            let def_method_name = self.default_method_name(name, &m.name);
+            // the default functions are named after the Rust name of the type
+            let def_method_name = self.default_method_name(&name_ident.to_string(), &m.name);
             quote!( #field_name: #def_method_name() )
         });
 
